@@ -47,6 +47,14 @@ TEMPLATES = [
     ("ansi", "update {w} set {c} = {a}.{c} from {a} where {a}.k = {w}.k"),
     ("ansi", "drop table {a}"),
     ("ansi", "alter table {a} rename to {w}"),
+    # two in-scope tables with the same bare name in different schemas, referenced through the bare name / alias
+    ("ansi", "insert into {w} select t1.{c}, p.{d} from s.t1 join s2.t1 p on t1.k = p.k"),
+    ("ansi", "insert into {w} select t2.{c} from s2.t2 p, s.t2 where t2.k = p.k"),
+    ("ansi", "insert into {w} select t3.{c}, t3.{d} from s.t3 join s2.t3 on s.t3.k = s2.t3.k"),
+    # scripts that fail part-way: every accessor must keep raising the same exception, in any order, any number of times
+    ("ansi", "insert into {w} select {c} from {a}; create index i1 on {a} (k); insert into {e} select {d} from {w}"),
+    ("ansi", "insert into {w} select {c} from {a}; selec {c} frm {b}"),
+    ("ansi", "grant select on {a} to u1"),
 ]
 
 
